@@ -47,7 +47,20 @@ func (z *zzImpl) OnNameChange(value string) error {
 func C05Events() {
 	im := &zzImpl{minThresh: sym.I32("min-threshold")}
 	p := MakeStation(nil, zzServe("Station", StationObject(im), (&stubStation{}).metaObject()))
-	switch sym.Choose("scenario", 4) {
+	switch sym.Choose("scenario", 5) {
+	case 4: // service-side updates of both properties, then a signal, then both are read back
+		v, n := sym.I32("threshold"), sym.Str("name", 2)
+		sym.Assume(v >= im.minThresh)
+		sym.Assert(im.helper.UpdateThreshold(v) == nil, "updates/threshold-ok")
+		sym.Assert(im.helper.UpdateName(n) == nil, "updates/name-ok")
+		sym.Assert(im.helper.SignalAlarm(sym.I32("level"), sym.Str("where", 3)) == nil, "updates/emit-ok")
+		sym.Quiesce()
+		gv, err := p.GetThreshold()
+		sym.Assert(err == nil, "updates/get-threshold-ok")
+		sym.Assert(gv == v, "updates/threshold-read-back")
+		gn, err := p.GetName()
+		sym.Assert(err == nil, "updates/get-name-ok")
+		sym.Assert(sym.EqStr(gn, n), "updates/name-read-back")
 	case 0: // signal with scalar + string payload
 		cancel, ch, err := p.SubscribeAlarm()
 		sym.Assert(err == nil, "alarm/subscribe-ok")
